@@ -567,7 +567,12 @@ def check_nox(ctx, impl, case, outs):
     narrow = max(cal) / min(cal) < 1.03
     rtol = 1e-7 if narrow else RTOL
     ctx.count('nox:narrow_span' if narrow else 'nox:regular')
+    before = (ff.copy(), T.copy(), P.copy())
     r = impl.BFFM2_EINOx(ff, impl.tmv(ei), impl.tmv(cal), T, P)
+    # the arrays handed in are the caller's (the same fuel-flow array goes on to the HC / CO fit and to the thrust categories)
+    rep.clause('inputs_not_modified', all(np.array_equal(a, b, equal_nan=True) for a, b in zip(before, (ff, T, P))),
+               f'BFFM2_EINOx changed an argument array in place: fuel flows {_fl(before[0])[:6]} -> {_fl(ff)[:6]}')
+    ff, T, P = (a.copy() for a in before)
     nox = np.asarray(r.NOxEI, dtype=float)
     # model validation against the as-is variant
     ok_asis = _first_bad(nox, u2fs(asis['nox']), rtol) is None
@@ -632,7 +637,11 @@ def check_hcco(ctx, impl, case, outs):
     ff, T, P = np.array(case['ff']), np.array(case['T']), np.array(case['P'])
     cal, ei = case['cal'], case['ei']
     o = outs[0]
+    before = (ff.copy(), np.array(T, dtype=float, copy=True), np.array(P, dtype=float, copy=True))
     r = np.asarray(impl.EI_HCCO(ff, impl.tmv(ei), impl.tmv(cal), T, P), dtype=float)
+    rep.clause('inputs_not_modified', all(np.array_equal(a, np.asarray(b, dtype=float), equal_nan=True) for a, b in zip(before, (ff, T, P))),
+               f'EI_HCCO changed an argument array in place: fuel flows {_fl(before[0])[:6]} -> {_fl(ff)[:6]}')
+    ff = before[0].copy()
     m = u2fs(o['ei'])
     xint = u2f(o['xint'])
     branch = o['branch']
